@@ -256,6 +256,7 @@ class Interp:
         self.pending = []
         self.depth = 0
         self.panic_in_func = False
+        self.switch_break = False       # a break was executed whose innermost breakable construct is a switch
         self.empty_substr = False       # a subscript was taken of an empty string (s[0:0])
 
     def tick(self):
@@ -485,12 +486,15 @@ class Interp:
                     conds.append(self.ev(c, env, genv) is True)
                 else:
                     conds.append(self.ev(tag, env, genv) == self.ev(c, env, genv))
-            for c, (_, body) in zip(conds, cases):
-                if c:
-                    self.block(body, env, genv)
-                    return
-            if default is not None:
-                self.block(default, env, genv)
+            try:
+                for c, (_, body) in zip(conds, cases):
+                    if c:
+                        self.block(body, env, genv)
+                        return
+                if default is not None:
+                    self.block(default, env, genv)
+            except BreakEx:
+                self.switch_break = True     # Go: break leaves the switch
         elif k in ("for3", "forcond", "forever", "forrange"):
             if k == "for3":
                 _, init, cond, incr, body = s
@@ -813,6 +817,9 @@ class Gen:
             return self.switch_stmt(scope, nest)
         if k < 0.68 and nest > 0:
             return self.for_stmt(scope, nest)
+        if k < 0.71 and self.in_switch and r.random() < 0.35:
+            self.count("switch-break")
+            return ("break",)
         if k < 0.71 and self.in_loop and not self.in_switch:
             self.count("break")
             return ("break",)
@@ -1188,6 +1195,8 @@ def generate(rng, cfg, tries=50):
         except (RecursionError, MemoryError):
             continue
         g.kinds["_panic_in_func"] = LAST.panic_in_func
+        g.kinds["_switch_break"] = LAST.switch_break
+        g.kinds["_switch_break_static"] = has_switch_break(prog)
         g.kinds["_empty_substr"] = LAST.empty_substr
         g.kinds["_minint"] = SAW_MININT
         return prog, pp_program(prog), out, status, g.kinds
@@ -1305,6 +1314,36 @@ def _defined_names(body, acc):
     return acc
 
 
+def has_switch_break(body, inner=None):
+    """a break whose innermost breakable construct is a switch occurs somewhere in the program (whether executed or not)"""
+    for s in body:
+        k = s[0]
+        if k == "break" and inner == "switch":
+            return True
+        if k == "if":
+            if any(has_switch_break(b, inner) for _, b in s[1]) or (s[2] is not None and has_switch_break(s[2], inner)):
+                return True
+        elif k == "switch":
+            if any(has_switch_break(b, "switch") for _, b in s[2]) or (s[3] is not None and has_switch_break(s[3], "switch")):
+                return True
+        elif k == "for3":
+            if has_switch_break(s[4], "loop"):
+                return True
+        elif k == "forcond":
+            if has_switch_break(s[2], "loop"):
+                return True
+        elif k == "forever":
+            if has_switch_break(s[1], "loop"):
+                return True
+        elif k == "forrange":
+            if has_switch_break(s[4], "loop"):
+                return True
+        elif k == "func":
+            if has_switch_break(s[4], None):
+                return True
+    return False
+
+
 POOL = ["a", "b", "c", "d", "n", "x", "y", "i", "j", "s", "t", "k", "m", "p", "q", "r", "u", "w", "z", "aa", "bb", "cc", "dd", "xx",
         "yy", "ii", "jj", "nn", "ss", "tt"]
 
@@ -1386,6 +1425,8 @@ def generate2(rng, cfg, transform=None, tries=50):
         except (RecursionError, MemoryError):
             continue
         g.kinds["_panic_in_func"] = LAST.panic_in_func
+        g.kinds["_switch_break"] = LAST.switch_break
+        g.kinds["_switch_break_static"] = has_switch_break(prog)
         g.kinds["_empty_substr"] = LAST.empty_substr
         g.kinds["_minint"] = SAW_MININT
         return prog, pp_program(prog), out, status, g.kinds
